@@ -131,9 +131,16 @@ type Violation struct {
 	Sig    string // signature for known-finding matching
 }
 
+// pendingReplay, when set, makes the next world replay the given yield tape
+// from its very first schedule point (set by runSc for replays).
+var pendingReplay *[]byte
+
 func NewWorld(seed uint64) *World {
 	w := &World{Rng: sim.NewRand(sim.Mix(seed)), yrng: sim.NewRand(sim.Mix(seed ^ 0x5eed)), T0: time.Now(), Log: sim.NewHash(),
 		Faults: map[string]int64{}, Probes: map[string]int64{}, Yields: map[string]int64{}}
+	if pendingReplay != nil {
+		w.Replay, w.Tape = true, *pendingReplay
+	}
 	verifhook.Yield = w.yield
 	return w
 }
@@ -271,7 +278,13 @@ func (w *World) remember(f *Frame) {
 
 // Wire steps. Each returns whether it applied.
 
-func (w *World) Deliver(link, k, mode int) bool {
+func (w *World) Deliver(link, k, mode int) bool { return w.deliver(link, k, mode, true) }
+
+// DeliverNoWait hands the frame to the receiving stack without waiting for
+// quiescence: its processing overlaps with whatever is posted next.
+func (w *World) DeliverNoWait(link, k, mode int) bool { return w.deliver(link, k, mode, false) }
+
+func (w *World) deliver(link, k, mode int, wait bool) bool {
 	if link < 0 || link >= len(w.Links) {
 		return false
 	}
@@ -288,6 +301,10 @@ func (w *World) Deliver(link, k, mode int) bool {
 	w.Tracef("deliver link=%d frame=%d len=%d", link, f.ID, len(f.Data))
 	if w.OnDeliver != nil {
 		w.OnDeliver(f)
+	}
+	if !wait {
+		w.InjectNoWait(w.Links[l.Peer], f.Proto, f.Data, mode)
+		return true
 	}
 	w.Inject(w.Links[l.Peer], f.Proto, f.Data, f.SrcMAC, f.DstMAC, mode)
 	return true
@@ -416,6 +433,8 @@ func (w *World) ApplyWire(s Step) bool {
 	switch s.Op {
 	case "deliver":
 		w.Deliver(s.A, s.B, s.C)
+	case "ndeliver":
+		w.DeliverNoWait(s.A, s.B, s.C)
 	case "drop":
 		w.Drop(s.A, s.B)
 	case "dup":
